@@ -23,8 +23,8 @@ type Run struct {
 	T       *Tape
 	Prop    string
 	Index   int
-	Faults  map[string]int // fault kind -> times it fired (changed an outcome)
-	Probes  map[string]int // "rare condition was hit" counters
+	Faults  map[string]int   // fault kind -> times it fired (changed an outcome)
+	Probes  map[string]int   // "rare condition was hit" counters
 	Maxes   map[string]int64 // maxima of measured quantities (reported in evidence)
 	sig     uint64
 	NonTriv bool
